@@ -226,7 +226,7 @@ func Property() runner.Property {
 				out = append(out, scenario(cfg{Name: fmt.Sprintf("close@%d/h%d", pos, hn), Hist: history(hn), Faults: map[int]fakeapi.WatchFault{1: W("close", pos)}, Mode: "S2", Bound: d}))
 			}
 			for pos := 0; pos < hn; pos++ {
-				for _, k := range []string{"status", "bookmark", "errorframe", "garbage", "dup"} {
+				for _, k := range []string{"status", "bookmark", "errorframe", "errorframe-obj", "errorframe-nil", "garbage", "dup"} {
 					out = append(out, scenario(cfg{Name: fmt.Sprintf("%s@%d/h%d", k, pos, hn), Hist: history(hn), Faults: map[int]fakeapi.WatchFault{1: W(k, pos)}, Mode: "S2", Bound: d}))
 				}
 			}
